@@ -124,7 +124,13 @@ struct World {
 impl World {
     fn src(&mut self, peer: u32, sess: u32) -> Arc<table::Source> {
         if peer == 0 {
-            return table::Source::local();
+            // both pseudo-sources have remote address 0.0.0.0: session 0 is the
+            // gRPC-injected source, any other session the kernel-redistribution one
+            return if sess == 0 {
+                table::Source::local()
+            } else {
+                table::Source::kernel()
+            };
         }
         if let Some((_, s)) = self.srcs.iter().find(|(k, _)| *k == (peer, sess)) {
             return s.clone();
@@ -152,6 +158,9 @@ impl World {
     fn src_id(&self, s: &Arc<table::Source>) -> (i128, i128) {
         if s.is_local() {
             return (0, 0);
+        }
+        if s.is_kernel() {
+            return (0, 1);
         }
         for ((p, q), x) in &self.srcs {
             if Arc::ptr_eq(x, s) {
